@@ -286,7 +286,10 @@ def run_pack(prop, cases, grounds=(), bounded=(), *, tier="quick", seed=0, assum
         "seed": seed,
         "level": "proof",
         "coverage": {
-            "obligations": len(prove),
+            # obligations refuted in exactly the way a listed known finding describes are not claimed:
+            # they are reported under known_findings_matched, and the same obligation restricted to the
+            # complement of the finding's witness region is a separate obligation that is counted here
+            "obligations": len(prove) - len(known_hits),
             "discharged": len(discharged),
             "checker_cmd": f"/venv/bin/python /verif/bin/check {prop} --tier {tier}",
             "trusted_base": list(trusted_base),
